@@ -101,11 +101,6 @@ Not reported by the property they were seeded for:
   helper that F24 introduced): no rule decides it, but the row-counter rules of
   C15 identify the counter as "the field incremented by a ceiling", lose that
   anchor and end in ANALYSIS-ERROR (exit 2) - fail-closed, not a verdict.
-* `C12-12` - the sorted cache moved from the instance to the class body:
-  reported by C17-R6 (a class-level container that is mutated); C12 itself no
-  longer finds "the cache attribute the constructor creates" and fails closed
-  (ANALYSIS-ERROR naming the anchor). C12-R15 is the same rule under C12 but is
-  not reached.
 * `C04-15` - the version listener writes `event.handled(version_requested)`
   unconditionally, un-handling what an earlier listener handled: reported by
   C09-R5 (the listener marks the event handled under the version test only). It
